@@ -574,10 +574,16 @@ def run(tier, seed):
     chk.rule = ("lattice points (all parameters non-zero) x random datasets with any basis strings over {X,Y,Z} "
                 "(all-Z and rotated rows mixed in one batch); derivative identities checked by TLC; every public gradient "
                 "method compared slot by slot and by parameter name with the interpreted templates; grouping machine "
-                "exhaustive for <= 3 rows x all basis strings (n <= 2); non-trivial = point with a rotated row")
+                "exhaustive for <= 3 rows x all basis strings (n <= 2); non-trivial = point with a rotated row.  Traces: "
+                "the real vector_to_grads / parameters_to_vector on bare RBMs and on the networks of the three state types "
+                "(identity vector in, per-parameter arrays out; parameters set by name, flat vector out) validated by "
+                "TraceLayout.tla")
     exps = run_wave(chk, tier, rng, seed)
     dm = run_dm(chk, tier, rng, seed)
     run_grouping(chk, tier, rng, seed)
+    # code -> spec: where the real vector_to_grads puts a flat vector, and the flat read-back of parameters set by name
+    import layout_trace
+    layout_trace.phase(chk, tier, random.Random(seed + 77))
     fd_aux(chk, tier, rng, seed)
     # negative controls: corrupted tables / templates must be flagged by the same comparators
     import copy
